@@ -139,6 +139,9 @@ class PyExec:
             d = self.d21[int(t[1])]
             nw = d['dll'].async_job_thread(self.w.clock.time())
             o.append(f"wakeup {sim.us(nw) - self.w.now}")
+        elif op in ('d21.tickpre', 'd22.tickpre'):
+            d = (self.d21 if op[:3] == 'd21' else self.d22)[int(t[1])]
+            self.tick_pre(d['dll'], int(t[2]), int(t[3]), parse_list(t[4]))
         elif op == 'd21.dump':
             o.append(self.d21_dump(int(t[1])))
         elif op == 'listener':
@@ -181,6 +184,45 @@ class PyExec:
             o.append(self.dm1_parse(parse_list(t[1])))
         else:
             raise ValueError(f"unknown op {op}")
+
+    def tick_pre(self, dll, K, can_id, data):
+        """one pass of the real async_job_thread; before its K-th session lookup (all loops, in order) the receive path
+        handles the frame — run from the line tracer, i.e. exactly between two source lines of the pass"""
+        import inspect
+        src, first = inspect.getsourcelines(type(dll).async_job_thread)
+        lookups = {first + n for n, l in enumerate(src) if l.strip().startswith('buf = self._') and 'bufid' in l}
+        code = type(dll).async_job_thread.__code__
+        state = dict(n=0, done=False)
+        payload = bytearray(data) if all(x < 256 for x in data) else data
+
+        def deliver():
+            state['done'] = True
+            try:
+                dll.notify(can_id, payload, 0)
+            except Exception as e:
+                self.out.append(f"rxexc {type(e).__name__}")
+
+        def local(frame, event, arg):
+            if event == 'line' and frame.f_lineno in lookups and not state['done']:
+                if state['n'] == K:
+                    sys.settrace(None)
+                    try:
+                        deliver()
+                    finally:
+                        sys.settrace(glob)
+                state['n'] += 1
+            return local
+
+        def glob(frame, event, arg):
+            return local if frame.f_code is code else None
+        sys.settrace(glob)
+        try:
+            nw = dll.async_job_thread(self.w.clock.time())
+        finally:
+            sys.settrace(None)
+        if not state['done']:
+            deliver()
+        self.out.append(f"wakeup {sim.us(nw) - self.w.now}")
 
     def d21_new(self, maxcmdt, cmdt, bam, acc):
         if not hasattr(self, 'd21'):
